@@ -153,6 +153,10 @@ pub struct Generated {
     pub globals: BTreeMap<String, CVal>,
     pub features: BTreeSet<&'static str>,
     pub fault: Option<&'static str>,
+    /// id of the injected fault statement
+    pub fault_id: Option<Id>,
+    /// for conflicts between two statements: the ids of both
+    pub fault_pair: Option<(Id, Id)>,
 }
 
 const CAP_NAMES: &[&str] = &["x", "y", "n", "m", "xs", "a", "b", "item", "some_x", "none-y"];
@@ -193,6 +197,8 @@ struct G<'t, 'b> {
     read_names: BTreeSet<String>,
     /// inherited names defined in the current stanza
     defined_here: BTreeSet<String>,
+    fault_id: Option<Id>,
+    fault_pair: Option<(Id, Id)>,
 }
 
 impl<'t, 'b> G<'t, 'b> {
@@ -1296,23 +1302,42 @@ impl<'t, 'b> G<'t, 'b> {
         self.fault_done = Some(kind);
         let target = self.pick_target(false).map(|t| t.0).unwrap_or(Expr::Call { func: "node".into(), args: vec![] });
         let id = self.id();
+        self.fault_id = Some(id);
         Some(match kind {
             "type-plus" => Stmt::AttrNode { id, node: target, attrs: vec![Attr { name: "f".into(), value: Some(Expr::Call { func: "plus".into(), args: vec![Expr::Str("a".into()), Expr::Int(1, 0)] }) }] },
             "type-not" => Stmt::Let { id, var: VarRef::Plain { id: self.id(), name: self.fresh_name("flt") }, value: Expr::Call { func: "not".into(), args: vec![Expr::Int(1, 0)] } },
             "unknown-function" => Stmt::Let { id, var: VarRef::Plain { id: self.id(), name: self.fresh_name("flt") }, value: Expr::Call { func: "no-such-function".into(), args: vec![Expr::Int(1, 0)] } },
             "edge-non-node" => Stmt::Edge { id, src: target, dst: Expr::Int(3, 0) },
             "attr-non-node" => Stmt::AttrNode { id, node: Expr::Str("s".into()), attrs: vec![Attr { name: "f".into(), value: Some(Expr::Int(1, 0)) }] },
-            "attr-conflict" => {
+            "attr-conflict" | "edge-attr-conflict" => {
+                let on_edge = kind == "edge-attr-conflict";
                 let v = self.fresh_name("flt");
-                // two statements in one: node, then conflicting attributes
+                // one statement that holds: node, [edge,] attribute, (another attribute in between,) conflicting attribute
                 let vid = self.id();
-                self.add_local(&v, Ty::GNode, false, None, true);
-                // emitted as an if #true block so it stays one statement
                 let node = Stmt::Node { id: self.id(), var: VarRef::Plain { id: vid, name: v.clone() } };
-                let a1 = Stmt::AttrNode { id: self.id(), node: Expr::Var { id: self.id(), name: v.clone() }, attrs: vec![Attr { name: "f".into(), value: Some(Expr::Int(1, 0)) }] };
-                let a2 = Stmt::AttrNode { id: self.id(), node: Expr::Var { id: self.id(), name: v.clone() }, attrs: vec![Attr { name: "f".into(), value: Some(Expr::Int(2, 0)) }] };
-                self.frames.last_mut().unwrap().pop();
-                Stmt::If { id, arms: vec![IfArm { id: self.id(), conds: vec![Cond::Bool(self.id(), Expr::True)], body: vec![node, a1, a2] }] }
+                let var = |g: &mut Self| Expr::Var { id: g.id(), name: v.clone() };
+                let mk = |g: &mut Self, name: &str, value: u32| {
+                    let attrs = vec![Attr { name: name.into(), value: Some(Expr::Int(value, 0)) }];
+                    if on_edge {
+                        Stmt::AttrEdge { id: g.id(), src: var(g), dst: var(g), attrs }
+                    } else {
+                        Stmt::AttrNode { id: g.id(), node: var(g), attrs }
+                    }
+                };
+                let mut body = vec![node];
+                if on_edge {
+                    body.push(Stmt::Edge { id: self.id(), src: var(self), dst: var(self) });
+                }
+                let a1 = mk(self, "f", 1);
+                let a2 = mk(self, "f", 2);
+                self.fault_pair = Some((a1.id(), a2.id()));
+                body.push(a1);
+                for _ in 0..self.t.choose(3) {
+                    let other = ["g", "h"][self.t.choose(2)];
+                    body.push(mk(self, other, 0));
+                }
+                body.push(a2);
+                Stmt::If { id, arms: vec![IfArm { id: self.id(), conds: vec![Cond::Bool(self.id(), Expr::True)], body }] }
             }
             "undefined-edge" => {
                 let other = Expr::Call { func: "node".into(), args: vec![] };
@@ -1326,9 +1351,18 @@ impl<'t, 'b> G<'t, 'b> {
                 Some((scope, _)) => {
                     let n = self.fresh_name("dup");
                     let a = Stmt::Let { id: self.id(), var: VarRef::Scoped { id: self.id(), scope: scope.clone(), name: n.clone() }, value: Expr::Int(1, 0) };
-                    let scope2 = self.reid(scope);
+                    let scope2 = self.reid(scope.clone());
                     let b = Stmt::Let { id: self.id(), var: VarRef::Scoped { id: self.id(), scope: scope2, name: n }, value: Expr::Int(1, 0) };
-                    Stmt::If { id, arms: vec![IfArm { id: self.id(), conds: vec![Cond::Bool(self.id(), Expr::True)], body: vec![a, b] }] }
+                    self.fault_pair = Some((a.id(), b.id()));
+                    let mut body = vec![a];
+                    if self.t.chance(1, 2) {
+                        // an unrelated definition on the same node in between
+                        let scope3 = self.reid(scope);
+                        let other = self.fresh_name("dupmid");
+                        body.push(Stmt::Let { id: self.id(), var: VarRef::Scoped { id: self.id(), scope: scope3, name: other }, value: Expr::Int(0, 0) });
+                    }
+                    body.push(b);
+                    Stmt::If { id, arms: vec![IfArm { id: self.id(), conds: vec![Cond::Bool(self.id(), Expr::True)], body }] }
                 }
                 None => Stmt::Edge { id, src: target, dst: Expr::Int(3, 0) },
             },
@@ -1393,6 +1427,7 @@ pub const FAULTS: &[&str] = &[
     "overflow",
     "type-in-list",
     "shorthand-free-variable",
+    "edge-attr-conflict",
 ];
 
 // ------------------------------------------------------------------------------------------------
@@ -1569,6 +1604,8 @@ pub fn generate(t: &mut Tape, cfg: &GenCfg) -> Generated {
         extra_items: vec![],
         read_names: BTreeSet::new(),
         defined_here: BTreeSet::new(),
+        fault_id: None,
+        fault_pair: None,
     };
     let mut head: Vec<Item> = vec![];
     let mut supplied = BTreeMap::new();
@@ -1648,5 +1685,5 @@ pub fn generate(t: &mut Tape, cfg: &GenCfg) -> Generated {
     if let Some(it) = move_last {
         items.push(it);
     }
-    Generated { prog: GProg { items }, globals: supplied, features: g.features, fault: g.fault_done }
+    Generated { prog: GProg { items }, globals: supplied, features: g.features, fault: g.fault_done, fault_id: g.fault_id, fault_pair: g.fault_pair }
 }
